@@ -37,7 +37,7 @@ var propDefs = map[string]PropDef{
 	"C09": {Classes: []string{"POST", "INV", "PRE", "LEMMA"}, Level: "proof"},
 	"C10": {Classes: []string{"POST", "INV", "PRE", "LEMMA"}, Level: "proof"},
 	"C11": {Classes: []string{"FRAME"}, Level: "proof", Skip: graphSetPosts},
-	"C12": {Classes: []string{"OWN", "POST", "INV"}, Level: "proof", Skip: without(graphSetPosts, "C12:inv")},
+	"C12": {Classes: []string{"OWN", "POST", "INV"}, Level: "proof", Skip: without(graphSetPosts, "C12:inv", "C12:copy:")},
 	"C13": {Classes: []string{"POST", "LEMMA", "PRE", "INV", "READS"}, Level: "proof"},
 	"C14": {Classes: []string{"POST", "INV", "PRE", "LEMMA", "READS"}, Level: "proof", Skip: graphSetPosts},
 	"C15": {Classes: []string{"SAFE", "POST", "INV", "PRE", "LEMMA"}, Level: "proof"},
